@@ -115,3 +115,40 @@ func runCompile(args []*Sexp) (out *Sexp) {
 	}
 	return L(A("ok"), bytecodeFns(bc))
 }
+
+// (case id lexenum <alphabet hex> <maxlen> <prefix hex>) -> (lexenum <count> <panics> (<input hex> <message>)...)
+// compiles every byte string prefix+w, w over the alphabet with length 0..maxlen; reports the inputs on which Compile panics
+func runLexEnum(args []*Sexp) *Sexp {
+	alpha := atomBytes(args[0])
+	maxlen := int(atomInt(args[1]))
+	prefix := atomBytes(args[2])
+	count, panics := 0, 0
+	out := L(A("lexenum"))
+	var found []*Sexp
+	try := func(src []byte) {
+		count++
+		defer func() {
+			if r := recover(); r != nil {
+				panics++
+				if len(found) < 5 {
+					found = append(found, L(A("x"+hex.EncodeToString(src)), A(sanitize(fmt.Sprint(r)))))
+				}
+			}
+		}()
+		_, _ = ugo.Compile(src, ugo.CompilerOptions{NoOptimize: true})
+	}
+	var rec func(cur []byte, left int)
+	rec = func(cur []byte, left int) {
+		try(append([]byte(nil), cur...))
+		if left == 0 {
+			return
+		}
+		for _, b := range alpha {
+			rec(append(cur, b), left-1)
+		}
+	}
+	rec(append([]byte(nil), prefix...), maxlen)
+	out.List = append(out.List, A(strconv.Itoa(count)), A(strconv.Itoa(panics)))
+	out.List = append(out.List, found...)
+	return out
+}
